@@ -119,7 +119,7 @@ PROPS.update({
         "level": "proof", "design_ref": "DESIGN.md section 5 C06",
         "assumptions": U1_ASSUME + ["#[derive(Default)] on SuffixDict yields count == 0 and index == 0 (assumed specification of the derived impl)",
                                      "units with iterator client loops are verified with --no-lifetime"],
-        "level_text": "(F1) representation invariant of the suffix dictionary, (F2) insert against the abstract view (hit: some live entry equals the suffix up to ASCII case, nothing changes; miss: exactly slot `index` is replaced, every other slot untouched), (F3) the offset remembered for a suffix is its position in the OUTPUT, (F4) what the name emitter appends is whole labels followed by nothing or one pointer below 0x4000 that stands for at least 3 bytes, (F5) a compressed name/record/packet is never longer than the original, (F6) every record of every section is re-emitted, OPT included, (F7) the RDLENGTH written back equals the data bytes emitted, (F8) 'every pointer it emits designates, in the output, the suffix it stands for': the invariant dict_ok (every live dictionary entry designates, in the output, a valid name equal to its suffix up to ASCII case) holds from SuffixDict::new() to the end of compress(): the name emitter keeps it (pending-entry invariant of its loop; a hit can only be an entry that was faithful at entry), Compress::indirections is proved to return exactly the number of pointers the parser follows, appends keep it (walk transport lemma), and so does the RDLENGTH fix-up of compress_rdata (no name designated by the dictionary reads those two bytes: window lemmas of spec/ptr.rs); consequently every name compress() writes -- question, owner names, NS/CNAME/PTR/MX targets, both SOA names -- is asserted, at the place it is emitted, to be valid under the parser's name rule (at most 16 pointers, strictly backward, at most 255 bytes) and to decode in the output to the input name up to ASCII case; (F9) 'compression succeeds and returns an accepted packet': compress(p).is_ok() <==> wf_packet(p), and r matches Ok(c) ==> wf_packet(c) -- every record written is proved to be a record the parser accepts (compress_rdata: out_rdata per record type, incl. the verbatim option list of OPT and the pointer-free name of DNAME; lemma_out_record), the sections are assembled record by record (lemma_rrs_append, stability under growth: lemma_rr_spec_ext / lemma_rrs_ext), OPT at most once with a one-byte root owner, question class and header policy from the copied header (lemma_accept); the header is copied. NOT proved by contracts: message equality as one statement (each name is proved equal up to case at the place it is written and every non-name field is proved copied, but the decode of the whole output is not re-assembled), and 'decompressing the result gives back the input' -- these clauses are exercised by the differential replay (compress, re-parse, compare, decompress)",
+        "level_text": "(F1) representation invariant of the suffix dictionary, (F2) insert against the abstract view (hit: some live entry equals the suffix up to ASCII case, nothing changes; miss: exactly slot `index` is replaced, every other slot untouched), (F3) the offset remembered for a suffix is its position in the OUTPUT, (F4) what the name emitter appends is whole labels followed by nothing or one pointer below 0x4000 that stands for at least 3 bytes, (F5) a compressed name/record/packet is never longer than the original, (F6) every record of every section is re-emitted, OPT included, (F7) the RDLENGTH written back equals the data bytes emitted, (F8) 'every pointer it emits designates, in the output, the suffix it stands for': the invariant dict_ok (every live dictionary entry designates, in the output, a valid name equal to its suffix up to ASCII case) holds from SuffixDict::new() to the end of compress(): the name emitter keeps it (pending-entry invariant of its loop; a hit can only be an entry that was faithful at entry), Compress::indirections is proved to return exactly the number of pointers the parser follows, appends keep it (walk transport lemma), and so does the RDLENGTH fix-up of compress_rdata (no name designated by the dictionary reads those two bytes: window lemmas of spec/ptr.rs); consequently every name compress() writes -- question, owner names, NS/CNAME/PTR/MX targets, both SOA names -- is asserted, at the place it is emitted, to be valid under the parser's name rule (at most 16 pointers, strictly backward, at most 255 bytes) and to decode in the output to the input name up to ASCII case; (F9) 'compression succeeds and returns an accepted packet': compress(p).is_ok() <==> wf_packet(p), and r matches Ok(c) ==> wf_packet(c) -- every record written is proved to be a record the parser accepts (compress_rdata: out_rdata per record type, incl. the verbatim option list of OPT and the pointer-free name of DNAME; lemma_out_record), the sections are assembled record by record (lemma_rrs_append, stability under growth: lemma_rr_spec_ext / lemma_rrs_ext), OPT at most once with a one-byte root owner, question class and header policy from the copied header (lemma_accept); the header is copied; (F10) 'whose header, record sequence (including any OPT record and its options) and record contents equal the input's, names being equal up to ASCII case': r matches Ok(c) ==> msg_ci(c, p) (spec/cacc.rs) -- header bytes equal; question name equal up to case, type and class byte for byte; then, section by section at the sections' starts as the reader computes them (sec_start of the output against sec_start of the input) and record by record in order (recs_ci), owner name equal up to case, type/class/TTL byte for byte, and the data: the target name of NS/CNAME/PTR, preference and exchange of MX, both names and the twenty fixed bytes of SOA, and for every other type (OPT and its option list, A, AAAA, DNAME, opaque) RDLENGTH and data byte for byte (compress_rdata: rd_ci per arm; stability of already written records under growth: lemma_rec_ci_ext / lemma_recs_ci_ext; assembly lemma_recs_ci_append / lemma_msg_ci). NOT proved by contracts: 'the question name byte-identical' (proved only up to case: byte identity needs 'the first name meets an empty dictionary and cannot hit one of its own suffixes') and 'decompressing the result gives back the input up to name case' as a statement about uncompress(compress(p)) (it follows from F9 + F10 + C05's uncompress_spec informally; the composition lemma is not written) -- both are exercised by the differential replay (compress, re-parse, compare, decompress)",
         "technique": "Verus data-structure invariant + view-based postconditions for the dictionary; frame/length/count contracts for the emitter and the section loops; remaining clauses by differential replay (stated)",
     },
     "C07": {
